@@ -79,7 +79,12 @@ func NewBranchDispatcher(re *syntax.Regexp) *BranchDispatcher {
 		}
 
 		if fb.Count() == 0 {
-			// Branch can match empty (like ^ or empty alternative)
+			// Only a bare $ / \z branch is modeled: it matches iff the haystack
+			// is empty. Other zero-width branches (^, (?m)$, ...) can match in
+			// front of any byte, which first-byte dispatch cannot express.
+			if branch.Op != syntax.OpEndText {
+				return nil
+			}
 			canMatchEmpty = true
 			continue
 		}
@@ -314,8 +319,9 @@ func IsBranchDispatchPattern(re *syntax.Regexp) bool {
 		return false
 	}
 
-	// Must be concatenation starting with ^ anchor
-	if re.Op != syntax.OpConcat || len(re.Sub) < 2 {
+	// Must be exactly ^ anchor + alternation: the dispatcher reports a match as
+	// soon as a branch matches, so nothing may follow the alternation.
+	if re.Op != syntax.OpConcat || len(re.Sub) != 2 {
 		return false
 	}
 
